@@ -256,3 +256,13 @@ pub fn show_bytes(b: &[u8]) -> String {
         format!("<{} bytes h={:016x}>", b.len(), h64(b))
     }
 }
+
+/// Budget of a sub-exploration (overridable for development with VERIF_SUB_BUDGET_SECS).
+pub fn sub_budget(default_secs: u64) -> Budget {
+    Budget::new(
+        std::env::var("VERIF_SUB_BUDGET_SECS")
+            .ok()
+            .and_then(|s| s.parse().ok())
+            .unwrap_or(default_secs),
+    )
+}
